@@ -5,6 +5,7 @@ package props
 // codec (text, JSON) decoders.
 
 import (
+	"bytes"
 	"encoding/json"
 	"fmt"
 	"math"
@@ -694,6 +695,26 @@ func c11DecodeText(text string) (v types.Value, bad string) {
 	if err != nil {
 		return nil, "eval error: " + err.Error()
 	}
+	// an entity uid has typed text and binary decoders of its own
+	if uid, ok := out.(types.EntityUID); ok {
+		var u2, u3 types.EntityUID
+		if err := u2.UnmarshalCedar(uid.MarshalCedar()); err != nil {
+			return nil, "EntityUID.UnmarshalCedar of its own text form: " + err.Error()
+		}
+		if !u2.Equal(uid) {
+			return nil, "EntityUID.UnmarshalCedar of its own text form gives another uid"
+		}
+		b, err := uid.MarshalBinary()
+		if err == nil {
+			err = u3.UnmarshalBinary(b)
+		}
+		if err != nil {
+			return nil, "EntityUID binary form: " + err.Error()
+		}
+		if !u3.Equal(uid) {
+			return nil, "EntityUID.UnmarshalBinary of its own binary form gives another uid"
+		}
+	}
 	return out, ""
 }
 
@@ -738,6 +759,31 @@ func c11DecodeJSON(b []byte) (v types.Value, bad string) {
 		}
 		if !used.Equal(t) || used.Len() != t.Len() {
 			return nil, "Set.UnmarshalJSON into a used receiver gives " + string(used.MarshalCedar())
+		}
+		// every element a second time in another spelling (indented): sets have no duplicates,
+		// however the equal elements are written
+		var elems []json.RawMessage
+		if json.Unmarshal(b, &elems) == nil && len(elems) > 0 {
+			var doc bytes.Buffer // assembled by hand: json.Marshal would compact the copies again
+			doc.WriteByte('[')
+			for i, e := range elems {
+				if i > 0 {
+					doc.WriteByte(',')
+				}
+				doc.Write(e)
+				doc.WriteString(",\n ")
+				if json.Indent(&doc, e, " ", "  ") != nil {
+					doc.Write(e)
+				}
+			}
+			doc.WriteByte(']')
+			var twice types.Set
+			if err := twice.UnmarshalJSON(doc.Bytes()); err != nil {
+				return nil, "Set.UnmarshalJSON of an array with re-spelled duplicates: unmarshal error: " + err.Error()
+			}
+			if !twice.Equal(t) || twice.Len() != t.Len() {
+				return nil, "Set.UnmarshalJSON of an array listing every element twice (second copy indented) is not the set of the distinct elements"
+			}
 		}
 	}
 	return out, ""
